@@ -19,10 +19,12 @@ unsigned case_timeout_s() { return 1800; }
 
 // *_union_mixed: an exact input of lg_k+1 holding min(n, 1.5k) keys (more than k entries in the union table) and a
 //   coarser input (lg_k-2; p = 1 in theta_union_mixed, p = 0.5 in tuple_union_mixed) over the upper half of those keys and the rest; order alternates.
+// tuple_filter: every 16th key carries summary 3.0 (others 1.0); the derived sketch filter(summary > 2) estimates that sub-population
+//   (true count ceil(n/16)); odd trials filter the compact form.
 // *_reuse: the sketch (resize factor = trial mod 4) / the union object is first driven into estimation mode with 4k
 //   unrelated keys, reset(), then used.
-enum Fam { F_THETA_P1, F_THETA_P05, F_TUPLE, F_THETA_UNION, F_TUPLE_UNION, F_THETA_UNION_MIXED, F_TUPLE_UNION_MIXED, F_THETA_REUSE, F_TUPLE_REUSE, F_THETA_UNION_REUSE, F_N };
-static const char* FAM_NAME[] = {"theta_p1", "theta_p05", "tuple", "theta_union", "tuple_union", "theta_union_mixed", "tuple_union_mixed", "theta_reuse", "tuple_reuse", "theta_union_reuse"};
+enum Fam { F_THETA_P1, F_THETA_P05, F_TUPLE, F_THETA_UNION, F_TUPLE_UNION, F_THETA_UNION_MIXED, F_TUPLE_UNION_MIXED, F_THETA_REUSE, F_TUPLE_REUSE, F_THETA_UNION_REUSE, F_TUPLE_FILTER, F_N };
+static const char* FAM_NAME[] = {"theta_p1", "theta_p05", "tuple", "theta_union", "tuple_union", "theta_union_mixed", "tuple_union_mixed", "theta_reuse", "tuple_reuse", "theta_union_reuse", "tuple_filter"};
 
 static std::vector<Cell> build_cells(bool thorough) {
   std::vector<Cell> cells;
@@ -166,6 +168,13 @@ void run_case(uint64_t idx, Rng& r) {
         tr.push_back(observe(s, n, fam, ctx + " rf=" + std::to_string(t & 3), n <= (1ULL << cell.lg_k)));
         break;
       }
+      case F_TUPLE_FILTER: {
+        auto s = update_tuple_sketch<double>::builder().set_lg_k(cell.lg_k).build();
+        for (uint64_t i = 0; i < n; ++i) s.update(key(i), (i & 15) == 0 ? 3.0 : 1.0);
+        auto pred = [](const double& v) { return v > 2.0; };
+        if (t & 1) tr.push_back(observe(s.compact().filter(pred), (n + 15) / 16, fam, ctx)); else tr.push_back(observe(s.filter(pred), (n + 15) / 16, fam, ctx));
+        break;
+      }
       case F_THETA_UNION_REUSE: {
         static thread_local std::unique_ptr<theta_union> persistent;     // one union object for all trials of the cell
         if (t == 0) persistent.reset(new theta_union(theta_union::builder().set_lg_k(cell.lg_k).set_resize_factor(static_cast<resize_factor>(idx & 3)).build()));
@@ -192,7 +201,8 @@ void run_case(uint64_t idx, Rng& r) {
   for (auto& t : tr) { hw += 0.5 * (t.c.ub[1] - t.c.lb[1]); es += t.c.est; all_exact = all_exact && t.exact_class; }
   const double rse = es > 0 ? hw / es : 0.0;
   const std::string ctx = "family=" + fam + " lg_k=" + std::to_string(cell.lg_k) + " n=" + std::to_string(n);
-  const CellResult R = check_cell(tr, n, rse, fam, ctx, true, true);
+  const uint64_t n_truth = cell.fam == F_TUPLE_FILTER ? (n + 15) / 16 : n;
+  const CellResult R = check_cell(tr, n_truth, rse, fam, ctx, true, true);
   count("mc_cells");
   count("mc_trials", cell.trials);
   count(std::string("mc_") + fam + "_" + (all_exact ? "exact" : range_class(cell.lg_k, n)));
